@@ -476,6 +476,70 @@ def changed_modelled_functions(chk):
     return sorted(n for n in names if n in base and base[n] != cur[n])
 
 
+def anchor_files(pid):
+    """the source files the property is anchored in (properties.jsonl `anchors.files`) plus the files of
+    its modelled functions."""
+    files = set()
+    try:
+        for line in (VERIF / "properties.jsonl").read_text().splitlines():
+            p = json.loads(line)
+            if p.get("id") == pid:
+                files |= {f for f in p.get("anchors", {}).get("files", []) if f.endswith(".py")}
+    except Exception:
+        pass
+    return files
+
+
+def file_int_constants(paths, repo=None):
+    """{path: sorted integer literals in [8, 10**7] of the file (incl. constant powers such as 2**16)}"""
+    import ast
+
+    out = {}
+    for path in paths:
+        vals = set()
+        try:
+            tree = ast.parse(((repo or REPO) / path).read_text())
+        except Exception:
+            out[path] = None
+            continue
+        for node in ast.walk(tree):
+            v = None
+            if isinstance(node, ast.Constant) and isinstance(node.value, int) and not isinstance(node.value, bool):
+                v = node.value
+            elif isinstance(node, ast.Constant) and isinstance(node.value, float) and node.value == int(node.value):
+                v = int(node.value)
+            elif isinstance(node, ast.BinOp) and isinstance(node.op, ast.Pow) and isinstance(node.left, ast.Constant) \
+                    and isinstance(node.right, ast.Constant) and isinstance(node.left.value, int) \
+                    and isinstance(node.right.value, int) and 0 <= node.right.value <= 24:
+                v = node.left.value ** node.right.value
+            elif isinstance(node, ast.BinOp) and isinstance(node.op, ast.Mult) and isinstance(node.left, ast.Constant) \
+                    and isinstance(node.right, ast.Constant) and isinstance(node.left.value, int) \
+                    and isinstance(node.right.value, int):
+                v = node.left.value * node.right.value
+            if v is not None and 8 <= v <= 10 ** 7:
+                vals.add(v)
+        out[path] = sorted(vals)
+    return out
+
+
+def size_hints(chk):
+    """Search heuristic (DESIGN §13, never part of the argument): integer constants that appear in the
+    property's anchored / modelled source files NOW but not in the recorded baseline
+    (harness/model_map.json["__consts__"]).  A size-gated fast path, a block size, an iteration period or
+    a dtype limit introduced by a change shows up here; the generators then place cases on both sides of
+    each constant (`generate_large`)."""
+    files = sorted(anchor_files(chk.pid) | {n.split(":")[0] for n in (getattr(chk, "modelled_functions", []) or [])})
+    f = VERIF / "harness" / "model_map.json"
+    base = json.loads(f.read_text()).get("__consts__", {}) if f.exists() else {}
+    cur = file_int_constants(files)
+    hints = set()
+    for path in files:
+        if base.get(path) is None or cur.get(path) is None:
+            continue
+        hints |= set(cur[path]) - set(base[path])
+    return sorted(hints)
+
+
 # ----------------------------------------------------------------------------------------------
 # the property-check base class
 # ----------------------------------------------------------------------------------------------
@@ -503,6 +567,15 @@ class PropertyCheck:
         """yield case dicts.  Required keys: 'tag' (generator class, for the distribution histogram).
         Everything else is up to the property; cases must be JSON-serialisable."""
         raise NotImplementedError
+
+    size_hints = []  # set by the runner: new integer constants in the anchored source (see size_hints())
+
+    def generate_large(self, hints, rng: random.Random):
+        """yield cases whose sizes (pixels, sub-pixels, mesh pixels, kernel pixels, baselines, points,
+        iterations … whatever the property's code loops over) straddle each hint: just below, at, just above,
+        a non-multiple above (c + c//3 + 1) and 2c+1.  Only called when `hints` is non-empty, i.e. when the
+        anchored source gained an integer constant; keep each case as cheap as the size allows."""
+        return []
 
     def corpus(self):
         """minimised past disagreements / defect witnesses: run first on every tier."""
@@ -677,6 +750,10 @@ def run_check(chk: PropertyCheck, tier: str, seed: int, replay: str | None = Non
     load_autoarray()
     rng = random.Random(seed)
     changed_fns = [] if replay else changed_modelled_functions(chk)
+    hints = [] if replay else size_hints(chk)
+    chk.size_hints = hints
+    if hints:
+        changed_fns = changed_fns + [f"new integer constants in anchored source: {hints}"]
     n_base = None
     if replay:
         rp = json.loads(Path(replay).read_text())
@@ -693,6 +770,16 @@ def run_check(chk: PropertyCheck, tier: str, seed: int, replay: str | None = Non
             # generators for a bounded extra time (heuristic, see DESIGN §9)
             t_gen = time.time()
             rng2 = random.Random(seed * 1000003 + 17)
+            if hints:  # constant-directed cases first: sizes on both sides of every new constant
+                try:
+                    for c in chk.generate_large(hints, rng2):
+                        c.setdefault("tag", "large")
+                        cases.append(c)
+                        if time.time() - t_gen > chk.escalation_budget_s / 2:
+                            break
+                except Exception as e:
+                    print(f"NOTE: generate_large failed: {type(e).__name__}: {e}", flush=True)
+            t_gen = time.time()
             for c in chk.generate("thorough", rng2):
                 cases.append(c)
                 if time.time() - t_gen > chk.escalation_budget_s / 4 and len(cases) - n_base > 200:
@@ -890,6 +977,7 @@ def run_check(chk: PropertyCheck, tier: str, seed: int, replay: str | None = Non
             "leanchecker": rechecked,
             "modelled_functions": len(getattr(chk, "modelled_functions", []) or []),
             "modelled_functions_changed": changed_fns,
+            "size_hints": hints,
             "exhaustive": bool(getattr(chk, "exhaustive_note", {}).get(tier)),
             "exhaustive_note": getattr(chk, "exhaustive_note", {}).get(tier, ""),
         },
@@ -955,7 +1043,14 @@ def failing_input_search(chk, tier, seed, t0):
     tried = 0
     for s in range(1, 6):
         rng = random.Random(seed * 7919 + s)
-        for c in chk.generate("thorough", rng):
+        gens = chk.generate("thorough", rng)
+        if s == 1 and getattr(chk, "size_hints", None):
+            import itertools
+            try:
+                gens = itertools.chain(list(chk.generate_large(chk.size_hints, rng)), gens)
+            except Exception:
+                pass
+        for c in gens:
             if time.time() - start > budget:
                 return found, tried
             o, sk = safe_impl(chk, c)
